@@ -10,6 +10,11 @@ import Mathlib.Algebra.BigOperators.Field
 import Mathlib.Tactic.Ring
 import Mathlib.Tactic.Linarith
 import Mathlib.Tactic.FieldSimp
+import Mathlib.LinearAlgebra.Matrix.PosDef
+import Mathlib.LinearAlgebra.Matrix.Block
+import Mathlib.LinearAlgebra.Matrix.NonsingularInverse
+import Mathlib.Algebra.Order.Star.Real
+import Mathlib.LinearAlgebra.Matrix.ToLinearEquiv
 import EasyMl.Model.Decomp
 import EasyMl.Lemmas.RealModel
 
@@ -71,6 +76,18 @@ theorem forRange_none_iff {σ} (f : Nat → σ → Option σ) (n : Nat) (s : σ)
         · subst hkn; rw [hm] at h1; cases h1; exact h2
         · have : forRange n f s = none := ih.mpr ⟨k, by omega, t', h1, h2⟩
           rw [hm] at this; cases this
+
+/-- Progress rule for `forRange`: if every step from a state satisfying the invariant succeeds
+    and re-establishes it, the loop succeeds. -/
+theorem forRange_progress {σ} (P : Nat → σ → Prop) (f : Nat → σ → Option σ) (n : Nat) (s : σ)
+    (h0 : P 0 s) (hstep : ∀ k t, k < n → P k t → ∃ t', f k t = some t' ∧ P (k + 1) t') :
+    ∃ s', forRange n f s = some s' ∧ P n s' := by
+  induction n with
+  | zero => exact ⟨s, forRange_zero f s, h0⟩
+  | succ n ih =>
+    obtain ⟨t, ht, hP⟩ := ih (fun k t hk => hstep k t (by omega))
+    obtain ⟨t', ht', hP'⟩ := hstep n t (Nat.lt_succ_self n) hP
+    exact ⟨t', by rw [forRange_succ, ht]; exact ht', hP'⟩
 
 /-- Invariant rule for `foldRange`. -/
 theorem foldRange_inv {σ} (P : Nat → σ → Prop) (f : Nat → σ → σ) (n : Nat) (s : σ)
@@ -656,6 +673,136 @@ theorem cholesky_real {A L : Matrix ℝ} (h : cholesky A = some L) :
     field_simp
     ring
 
+
+/-- the factor under construction agrees with the given factor `m` on the entries written so
+    far and is zero elsewhere -/
+structure CholAgree (n : ℕ) (m : ℕ → ℕ → ℝ) (L : Matrix ℝ) (i j : ℕ) : Prop where
+  shaped : Shaped n n L
+  zero : ∀ a b, a < n → b < n → ¬ CholDone i j a b → get L a b = 0
+  agree : ∀ a b, a < n → CholDone i j a b → get L a b = m a b
+
+theorem cholEntry_complete {n : ℕ} {A L : Matrix ℝ} {m : ℕ → ℕ → ℝ} {i j : ℕ}
+    (hlow : ∀ a b, a < b → m a b = 0) (hpos : ∀ a, a < n → 0 < m a a)
+    (hA : ∀ a b, a < n → b ≤ a → get A a b = ∑ k ∈ range n, m a k * m b k)
+    (hinv : CholAgree n m L i j) (hi : i < n) (hj : j ≤ i) :
+    ∃ L', cholEntry A L i j = some L' ∧ CholAgree n m L' i (j + 1) := by
+  have hjn : j < n := by omega
+  have hS : cholSum L i j = ∑ k ∈ range j, m i k * m j k := by
+    rw [cholSum_eq]
+    apply sum_congr rfl
+    intro k hk
+    have hk := mem_range.mp hk
+    rw [hinv.agree i k hi ⟨by omega, Or.inr ⟨rfl, hk⟩⟩]
+    by_cases hji : j = i
+    · subst hji; rw [hinv.agree j k hi ⟨by omega, Or.inr ⟨rfl, hk⟩⟩]
+    · rw [hinv.agree j k hjn ⟨by omega, Or.inl (by omega)⟩]
+  have hAij : get A i j = ∑ k ∈ range j, m i k * m j k + m i j * m j j := by
+    rw [hA i j hi hj]
+    have : ∑ k ∈ range n, m i k * m j k = ∑ k ∈ range (j + 1), m i k * m j k := by
+      symm
+      apply sum_subset (range_subset_range.mpr (by omega))
+      intro k _ hk'
+      have : ¬ k < j + 1 := fun hh => hk' (mem_range.mpr hh)
+      rw [hlow j k (by omega), mul_zero]
+    rw [this, sum_range_succ]
+  -- the value the step stores is `m i j`
+  have hval : ∃ L', cholEntry A L i j = some L' ∧ L' = set L i j (m i j) := by
+    unfold cholEntry
+    by_cases hij : i = j
+    · subst hij
+      simp only [if_true]
+      have he : get A i i - cholSum L i i = m i i * m i i := by rw [hS, hAij]; ring
+      have hmp := hpos i hi
+      have hnle : ¬ (m i i * m i i ≤ 0) := not_le.mpr (mul_pos hmp hmp)
+      have hb : NumOrd.le (get A i i - cholSum L i i) (0 : ℝ) = false := by
+        rw [he]
+        cases hbb : NumOrd.le (m i i * m i i) (0 : ℝ) with
+        | false => rfl
+        | true => exact absurd ((RealModel.le_eq _ _).mp hbb) hnle
+      rw [hb]
+      simp only [Bool.false_eq_true, if_false]
+      refine ⟨_, rfl, ?_⟩
+      rw [he, RealModel.sqrt_eq, Real.sqrt_mul_self hmp.le]
+    · simp only [hij, if_false]
+      refine ⟨_, rfl, ?_⟩
+      have hjj : get L j j = m j j := hinv.agree j j hjn ⟨le_refl j, Or.inl (by omega)⟩
+      have hne : m j j ≠ 0 := ne_of_gt (hpos j hjn)
+      rw [hS, hAij, hjj]
+      congr 1
+      field_simp
+      ring
+  obtain ⟨L', h1, h2⟩ := hval
+  refine ⟨L', h1, ?_⟩
+  subst h2
+  have hget : ∀ a b, b < n → get (set L i j (m i j)) a b = if a = i ∧ b = j then m i j else get L a b :=
+    fun a b hb => get_set hinv.shaped hi hjn a hb _
+  refine ⟨shaped_set hinv.shaped _ _ _, ?_, ?_⟩
+  · intro a b ha hb hnd
+    rw [hget a b hb, if_neg]
+    · apply hinv.zero a b ha hb
+      rintro ⟨h1, h2⟩; exact hnd ⟨h1, by omega⟩
+    · rintro ⟨rfl, rfl⟩; exact hnd ⟨hj, Or.inr ⟨rfl, Nat.lt_succ_self _⟩⟩
+  · intro a b ha hd
+    obtain ⟨hba, hd'⟩ := hd
+    rw [hget a b (by omega)]
+    by_cases hab : a = i ∧ b = j
+    · obtain ⟨rfl, rfl⟩ := hab; rw [if_pos ⟨rfl, rfl⟩]
+    · rw [if_neg hab]
+      exact hinv.agree a b ha ⟨hba, by omega⟩
+
+theorem cholRow_complete {n : ℕ} {A L : Matrix ℝ} {m : ℕ → ℕ → ℝ} {i : ℕ}
+    (hlow : ∀ a b, a < b → m a b = 0) (hpos : ∀ a, a < n → 0 < m a a)
+    (hA : ∀ a b, a < n → b ≤ a → get A a b = ∑ k ∈ range n, m a k * m b k)
+    (hinv : CholAgree n m L i 0) (hi : i < n) :
+    ∃ L', cholRow A i L = some L' ∧ CholAgree n m L' (i + 1) 0 := by
+  obtain ⟨L', h1, h2⟩ := forRange_progress (fun j L => CholAgree n m L i j)
+    (fun j L => cholEntry A L i j) (i + 1) L hinv
+    (fun k t hk hP => cholEntry_complete hlow hpos hA hP hi (by omega))
+  refine ⟨L', h1, h2.shaped, ?_, ?_⟩
+  · intro a b ha hb hnd
+    apply h2.zero a b ha hb
+    rintro ⟨h3, h4⟩; exact hnd ⟨h3, by omega⟩
+  · intro a b ha hd
+    apply h2.agree a b ha
+    obtain ⟨h3, h4⟩ := hd
+    exact ⟨h3, by omega⟩
+
+/-- **Completeness with an explicit factor**: if `A = M·Mᵀ` on the lower triangle for a lower
+    triangular `M` with positive diagonal, the model returns exactly `M`. -/
+theorem cholesky_complete_aux {A : Matrix ℝ} {m : ℕ → ℕ → ℝ} (hsq : A.rows = A.columns)
+    (hlow : ∀ a b, a < b → m a b = 0) (hpos : ∀ a, a < A.rows → 0 < m a a)
+    (hA : ∀ a b, a < A.rows → b ≤ a → get A a b = ∑ k ∈ range A.rows, m a k * m b k) :
+    ∃ L, cholesky A = some L ∧ Shaped A.rows A.rows L ∧
+      ∀ a b, a < A.rows → b < A.rows → get L a b = m a b := by
+  unfold cholesky
+  rw [if_neg (by simpa using hsq), ← hsq]
+  have h0 : CholAgree A.rows m (fill A.rows A.rows (0 : ℝ)) 0 0 := by
+    refine ⟨shaped_fill _ _ _, fun a b ha hb _ => get_fill _ _ _ _ _ ha hb, ?_⟩
+    rintro a b _ ⟨_, h2⟩; omega
+  obtain ⟨L, h1, h2⟩ := forRange_progress (fun i L => CholAgree A.rows m L i 0)
+    (fun i L => cholRow A i L) A.rows _ h0
+    (fun k t hk hP => cholRow_complete hlow hpos hA hP hk)
+  refine ⟨L, h1, h2.shaped, ?_⟩
+  intro a b ha hb
+  by_cases hba : b ≤ a
+  · exact h2.agree a b ha ⟨hba, Or.inl ha⟩
+  · rw [hlow a b (by omega)]
+    apply h2.zero a b ha hb
+    rintro ⟨h3, _⟩; omega
+
+
+
+/-- a lower-triangular real matrix with positive diagonal gives a positive definite `L·Lᵀ` -/
+theorem posDef_of_lower {n : ℕ} (L : _root_.Matrix (Fin n) (Fin n) ℝ)
+    (hlow : ∀ i j, i < j → L i j = 0) (hpos : ∀ i, 0 < L i i) : (L * L.transpose).PosDef := by
+  have hdet : L.det = ∏ i, L i i := Matrix.det_of_isLowerTriangular L (fun i j hij => hlow i j hij)
+  have hunit : IsUnit L := by
+    rw [Matrix.isUnit_iff_isUnit_det, hdet, isUnit_iff_ne_zero]
+    exact Finset.prod_ne_zero_iff.mpr (fun i _ => ne_of_gt (hpos i))
+  have hinj : Function.Injective L.vecMul := Matrix.vecMul_injective_iff_isUnit.mpr hunit
+  have := Matrix.PosDef.mul_conjTranspose_self L hinj
+  rwa [Matrix.conjTranspose_eq_transpose_of_trivial] at this
+
 end choleskyReal
 
 /-! ### Householder reflections over ℝ -/
@@ -993,6 +1140,586 @@ theorem sumSq_householderU_pos (x : List ℝ) (k : ℕ) (hk : x.getD k 0 ≠ 0) 
   have : 0 < (householderU x).getD 0 0 * (householderU x).getD 0 0 := mul_self_pos.mpr hu0
   linarith
 
+
+theorem householderU_getD_succ (x : List ℝ) (t : ℕ) :
+    (householderU x).getD (t + 1) 0 = x.getD (t + 1) 0 := by
+  unfold householderU
+  simp only []
+  rw [List.getD_eq_getElem?_getD, List.getD_eq_getElem?_getD, List.getElem?_set_ne (by omega)]
+
+theorem householderU_getD_zero (x : List ℝ) (hx : 0 < x.length) :
+    ∃ a : ℝ, a * a = sumSq x ∧ (householderU x).getD 0 0 = x.getD 0 0 + a := by
+  have hnn : 0 ≤ sumSq x := by rw [sumSq_eq]; exact sum_nonneg (fun t _ => mul_self_nonneg _)
+  have hs : Real.sqrt (sumSq x) * Real.sqrt (sumSq x) = sumSq x := Real.mul_self_sqrt hnn
+  have hhead : x.headD 0 = x.getD 0 0 := by
+    cases x with
+    | nil => simp at hx
+    | cons a l => simp
+  unfold householderU euclideanLength
+  simp only [RealModel.sqrt_eq]
+  rw [List.getD_eq_getElem?_getD, List.getElem?_set_self (by simpa using hx)]
+  simp only [Option.getD_some, hhead]
+  by_cases hsg : NumOrd.lt (0 : ℝ) (x.getD 0 0) = true
+  · rw [if_pos hsg]; exact ⟨_, hs, rfl⟩
+  · rw [if_neg hsg]; exact ⟨_, by rw [neg_mul_neg]; exact hs, rfl⟩
+
+/-- the reflection maps its own column to a multiple of `e₀`: every entry below the first
+    becomes zero -/
+theorem householder_annihilates (x : List ℝ) (t : ℕ) (ht : t + 1 < x.length) :
+    x.getD (t + 1) 0 - (householderV x).getD (t + 1) 0 *
+      (∑ k ∈ range x.length, (householderV x).getD k 0 * x.getD k 0) * (1 + 1) = 0 := by
+  obtain ⟨m, hm⟩ : ∃ m, x.length = m + 1 := ⟨x.length - 1, by omega⟩
+  obtain ⟨a, ha, hu0⟩ := householderU_getD_zero x (by omega)
+  set q := sumSq (householderU x) with hq
+  have hqs : q = ∑ k ∈ range x.length, (householderU x).getD k 0 * (householderU x).getD k 0 := by
+    rw [hq, sumSq_eq, householderU_length]
+  have hnn : 0 ≤ q := by rw [hqs]; exact sum_nonneg (fun t _ => mul_self_nonneg _)
+  simp only [householderV_getD]
+  rw [← hq, householderU_getD_succ]
+  by_cases h0 : q = 0
+  · -- `u = 0`: then `x` vanishes below its first entry and `v = 0`
+    have hall := (sum_eq_zero_iff_of_nonneg (fun t _ => mul_self_nonneg _)).mp (hqs ▸ h0)
+    have := hall (t + 1) (mem_range.mpr ht)
+    rw [householderU_getD_succ] at this
+    have hx0 : x.getD (t + 1) 0 = 0 := mul_self_eq_zero.mp this
+    rw [h0, Real.sqrt_zero, hx0]
+    simp
+  · have hs : Real.sqrt q * Real.sqrt q = q := Real.mul_self_sqrt hnn
+    have hsne : Real.sqrt q ≠ 0 := by
+      intro h; rw [h, mul_zero] at hs; exact h0 hs.symm
+    -- u·x = q / 2
+    have hsum : ∑ k ∈ range x.length, (householderU x).getD k 0 / Real.sqrt q * x.getD k 0
+        = (∑ k ∈ range x.length, (householderU x).getD k 0 * x.getD k 0) / Real.sqrt q := by
+      rw [Finset.sum_div]
+      exact sum_congr rfl (fun k _ => by ring)
+    have hX : sumSq x = ∑ k ∈ range m, x.getD (k + 1) 0 * x.getD (k + 1) 0 + x.getD 0 0 * x.getD 0 0 := by
+      rw [sumSq_eq, hm, sum_range_succ']
+    have hq2 : q = ∑ k ∈ range m, x.getD (k + 1) 0 * x.getD (k + 1) 0
+        + (x.getD 0 0 + a) * (x.getD 0 0 + a) := by
+      rw [hqs, hm, sum_range_succ', hu0]
+      congr 1
+      exact sum_congr rfl (fun k _ => by rw [householderU_getD_succ])
+    have hp : ∑ k ∈ range x.length, (householderU x).getD k 0 * x.getD k 0
+        = ∑ k ∈ range m, x.getD (k + 1) 0 * x.getD (k + 1) 0 + (x.getD 0 0 + a) * x.getD 0 0 := by
+      rw [hm, sum_range_succ', hu0]
+      congr 1
+      exact sum_congr rfl (fun k _ => by rw [householderU_getD_succ])
+    have hhalf : ∑ k ∈ range x.length, (householderU x).getD k 0 * x.getD k 0 = q / 2 := by
+      rw [hp, hq2]
+      rw [hX] at ha
+      linarith [ha]
+    have hdiv : q / 2 / Real.sqrt q = Real.sqrt q / 2 := by
+      rw [div_div, div_eq_div_iff (by simpa using hsne) (by norm_num)]
+      linear_combination (-2 : ℝ) * hs
+    rw [hsum, hhalf, hdiv]
+    field_simp
+    ring
+
+
+/-- columns before `c` are already zero below the diagonal -/
+def UpperUpTo (rows cols c : ℕ) (r : Matrix ℝ) : Prop :=
+  Shaped rows cols r ∧ ∀ i j, i < rows → j < cols → j < c → j < i → get r i j = 0
+
+/-- entries of `H·R` for a reflection `H = 1 − 2wwᵀ` -/
+theorem get_reflection_mul {rows cols c : ℕ} {r : Matrix ℝ} (hr : Shaped rows cols r) (hc : c ≤ rows)
+    {i j : ℕ} (hi : i < rows) (hj : j < cols) :
+    get (matMul (reflection rows c r) r) i j
+      = get r i j - reflVec rows c r i * (∑ k ∈ range rows, reflVec rows c r k * get r k j) * (1 + 1) := by
+  rw [get_matMul (shaped_reflection rows c r) hr hi hj]
+  have : ∀ k ∈ range rows, get (reflection rows c r) i k * get r k j
+      = (if i = k then get r k j else 0) - reflVec rows c r i * (reflVec rows c r k * get r k j) * (1 + 1) := by
+    intro k hk
+    rw [get_reflection r hc hi (mem_range.mp hk)]
+    split <;> ring
+  rw [sum_congr rfl this, sum_sub_distrib, sum_ite_eq, if_pos (mem_range.mpr hi), ← sum_mul, ← mul_sum]
+
+theorem reflVec_lt {rows c : ℕ} (r : Matrix ℝ) {i : ℕ} (hi : i < c) : reflVec rows c r i = 0 := by
+  unfold reflVec; rw [if_neg (by omega)]
+
+theorem qrStep_upper {rows cols c : ℕ} {r : Matrix ℝ} (h : UpperUpTo rows cols c r) (hc : c < rows) :
+    UpperUpTo rows cols (c + 1) (matMul (reflection rows c r) r) := by
+  obtain ⟨hr, hz⟩ := h
+  refine ⟨shaped_matMul (shaped_reflection rows c r) hr, ?_⟩
+  intro i j hi hj hjc hji
+  rw [get_reflection_mul hr (le_of_lt hc) hi hj]
+  by_cases hjc' : j < c
+  · -- an earlier column: `w · r_j = 0`, nothing changes
+    have hD : ∑ k ∈ range rows, reflVec rows c r k * get r k j = 0 := by
+      apply sum_eq_zero
+      intro k hk
+      by_cases hkc : k < c
+      · rw [reflVec_lt r hkc, zero_mul]
+      · rw [hz k j (mem_range.mp hk) hj hjc' (by omega), mul_zero]
+    rw [hD, hz i j hi hj hjc' hji]
+    ring
+  · -- column `c` itself
+    have hjc2 : j = c := by omega
+    subst hjc2
+    set x := (List.range (rows - j)).map fun t => get r (j + t) j with hx
+    have hlen : x.length = rows - j := by simp [hx]
+    have hxget : ∀ t, t < rows - j → x.getD t 0 = get r (j + t) j := by
+      intro t ht
+      simp [hx, List.getD_eq_getElem?_getD, ht]
+    have hw : ∀ t, reflVec rows j r (j + t) = (householderV x).getD t 0 := by
+      intro t
+      unfold reflVec
+      rw [if_pos (by omega), Nat.add_sub_cancel_left]
+    obtain ⟨t, ht⟩ : ∃ t, i = j + (t + 1) := ⟨i - j - 1, by omega⟩
+    subst ht
+    have hD : ∑ k ∈ range rows, reflVec rows j r k * get r k j
+        = ∑ k ∈ range x.length, (householderV x).getD k 0 * x.getD k 0 := by
+      have hsplit : rows = j + (rows - j) := by omega
+      rw [hsplit, sum_range_add]
+      have hz0 : ∑ k ∈ range j, reflVec (j + (rows - j)) j r k * get r k j = 0 := by
+        apply sum_eq_zero
+        intro k hk
+        rw [reflVec_lt r (mem_range.mp hk), zero_mul]
+      rw [hz0, zero_add, ← hsplit, hlen]
+      apply sum_congr rfl
+      intro k hk
+      rw [hw k, hxget k (mem_range.mp hk)]
+    rw [hD, hw (t + 1), ← hxget (t + 1) (by omega)]
+    exact householder_annihilates x t (by omega)
+
+theorem qrLoop_upper (A : Matrix ℝ) (hw : A.columns ≤ A.rows) :
+    UpperUpTo A.rows A.columns (min (A.rows - 1) A.columns) (qrLoop A).2 := by
+  unfold qrLoop
+  have h0 : UpperUpTo A.rows A.columns 0 (ofFn A.rows A.columns (get A)) :=
+    ⟨shaped_ofFn _ _ _, fun i j _ _ hj _ => by omega⟩
+  have := foldRange_inv (fun c s => UpperUpTo A.rows A.columns c s.2)
+    (fun c s => qrStep A.rows c s) (min (A.rows - 1) A.columns) (none, ofFn A.rows A.columns (get A)) h0
+    (fun k t hk hP => by
+      have hR' : (qrStep A.rows k t).2 = matMul (reflection A.rows k t.2) t.2 := by
+        obtain ⟨q, r⟩ := t
+        cases q <;> rfl
+      rw [hR']
+      exact qrStep_upper hP (by omega))
+  exact this
+
 end qr
+
+/-! ### positive definite inputs: every pivot is positive -/
+
+section pivots
+open scoped EasyMl.RealModel
+
+/-- **Pivots of a positive definite matrix are positive.**  If the leading `(i+1) × (i+1)` block
+    of a positive definite `S` is `T·diag(d)·Tᵀ` (on the lower triangle) for a lower triangular
+    table `t` with non-zero diagonal, every `d a`, `a ≤ i`, is positive. -/
+theorem pivot_pos {n : ℕ} (S : _root_.Matrix (Fin n) (Fin n) ℝ) (hS : S.PosDef) (i : ℕ) (hi : i < n)
+    (t : ℕ → ℕ → ℝ) (d : ℕ → ℝ)
+    (hlow : ∀ a b, a < b → b ≤ i → t a b = 0) (hdiag : ∀ a, a ≤ i → t a a ≠ 0)
+    (hid : ∀ a b (ha : a ≤ i) (hb : b ≤ a),
+      S ⟨a, by omega⟩ ⟨b, by omega⟩ = ∑ c ∈ range (i + 1), t a c * d c * t b c) :
+    ∀ a, a ≤ i → 0 < d a := by
+  have hk : i + 1 ≤ n := hi
+  let T : _root_.Matrix (Fin (i + 1)) (Fin (i + 1)) ℝ := fun a b => t a b
+  let dd : Fin (i + 1) → ℝ := fun a => d a
+  let S' := S.submatrix (Fin.castLE hk) (Fin.castLE hk)
+  have hS' : S'.PosDef := hS.submatrix (Fin.castLE_injective hk)
+  have hentry : ∀ a b : Fin (i + 1), (T * Matrix.diagonal dd * T.transpose) a b
+      = ∑ c ∈ range (i + 1), t a c * d c * t b c := by
+    intro a b
+    rw [Matrix.mul_apply, ← Fin.sum_univ_eq_sum_range (fun c => t a c * d c * t b c) (i + 1)]
+    apply Finset.sum_congr rfl
+    intro c _
+    rw [Matrix.mul_diagonal, Matrix.transpose_apply]
+  have hsymS : ∀ a b : Fin (i + 1), S' a b = S' b a := by
+    intro a b
+    have := hS'.1
+    have h2 := congrFun (congrFun this b) a
+    simpa [Matrix.conjTranspose_apply] using h2
+  have heq : S' = T * Matrix.diagonal dd * T.transpose := by
+    ext a b
+    by_cases hba : (b : ℕ) ≤ a
+    · rw [hentry]
+      exact hid a b (by have := a.isLt; omega) hba
+    · have hab : (a : ℕ) ≤ b := by omega
+      rw [hsymS, hentry]
+      have := hid b a (by have := b.isLt; omega) hab
+      rw [show S' b a = S ⟨b, by have := b.isLt; omega⟩ ⟨a, by have := a.isLt; omega⟩ from rfl, this]
+      exact sum_congr rfl (fun c _ => by ring)
+  have hdet : T.det = ∏ a, T a a :=
+    Matrix.det_of_isLowerTriangular T (fun a b hab => hlow a b hab (by have := b.isLt; omega))
+  have hunit : IsUnit T := by
+    rw [Matrix.isUnit_iff_isUnit_det, hdet, isUnit_iff_ne_zero]
+    exact Finset.prod_ne_zero_iff.mpr (fun a _ => hdiag a (by have := a.isLt; omega))
+  have hD : (Matrix.diagonal dd).PosDef := by
+    have h1 : (T * Matrix.diagonal dd * star T).PosDef := by
+      rw [Matrix.star_eq_conjTranspose, Matrix.conjTranspose_eq_transpose_of_trivial, ← heq]
+      exact hS'
+    exact (Matrix.IsUnit.posDef_star_right_conjugate_iff hunit).mp h1
+  intro a ha
+  have := hD.diag_pos (i := (⟨a, by omega⟩ : Fin (i + 1)))
+  simpa [dd] using this
+
+
+theorem cholOK_pos {A ℓ : ℕ → ℕ → ℝ} {a : ℕ} (h : CholEntryOK A ℓ a a) : 0 < ℓ a a := by
+  unfold CholEntryOK at h
+  rw [if_pos rfl] at h
+  obtain ⟨h1, h2⟩ := h
+  rw [h2]
+  have : ¬ (A a a - ∑ k ∈ range a, ℓ a k * ℓ a k ≤ 0) := by
+    intro hle
+    have := (RealModel.le_eq _ _).mpr hle
+    rw [h1] at this; exact Bool.false_ne_true this
+  exact Real.sqrt_pos.mpr (not_le.mp this)
+
+theorem cholOK_identity {A ℓ : ℕ → ℕ → ℝ} {a b : ℕ} (h : CholEntryOK A ℓ a b)
+    (hbb : a ≠ b → ℓ b b ≠ 0) : ∑ c ∈ range (b + 1), ℓ a c * ℓ b c = A a b := by
+  rw [sum_range_succ]
+  unfold CholEntryOK at h
+  by_cases hab : a = b
+  · subst hab
+    rw [if_pos rfl] at h
+    obtain ⟨h1, h2⟩ := h
+    have hnn : 0 ≤ A a a - ∑ k ∈ range a, ℓ a k * ℓ a k := by
+      by_contra hneg
+      have hle : A a a - ∑ k ∈ range a, ℓ a k * ℓ a k ≤ 0 := by linarith
+      have := (RealModel.le_eq _ _).mpr hle
+      rw [h1] at this; exact Bool.false_ne_true this
+    have hsq' : ℓ a a * ℓ a a = A a a - ∑ k ∈ range a, ℓ a k * ℓ a k := by
+      rw [h2]; exact Real.mul_self_sqrt hnn
+    linarith
+  · rw [if_neg hab] at h
+    have := hbb hab
+    rw [h]
+    field_simp
+    ring
+
+/-- With a positive definite input the diagonal step of row `i` meets a positive pivot. -/
+theorem chol_pivot_pos {n : ℕ} {A L : Matrix ℝ} {i : ℕ}
+    (hPD : (toMat n n A).PosDef) (hinv : CholInv n A L i i) (hi : i < n) :
+    0 < get A i i - cholSum L i i := by
+  have hposd : ∀ a, a < i → 0 < get L a a := fun a ha =>
+    cholOK_pos (hinv.ok a a (by omega) ⟨le_refl a, Or.inl ha⟩)
+  have hident : ∀ a b, a < n → CholDone i i a b → ∑ c ∈ range (b + 1), get L a c * get L b c = get A a b := by
+    intro a b ha hd
+    apply cholOK_identity (hinv.ok a b ha hd)
+    intro hab
+    obtain ⟨h1, h2⟩ := hd
+    exact ne_of_gt (hposd b (by omega))
+  set e := get A i i - cholSum L i i with he
+  let t : ℕ → ℕ → ℝ := fun a b => if a = i ∧ b = i then 1 else get L a b
+  let d : ℕ → ℝ := fun c => if c = i then e else 1
+  have hzero : ∀ a b, a < n → b < n → a < b → get L a b = 0 := by
+    intro a b ha hb hab
+    apply hinv.zero a b ha hb
+    rintro ⟨h1, _⟩; omega
+  have hii : get L i i = 0 := by
+    apply hinv.zero i i hi hi
+    rintro ⟨_, h2⟩; omega
+  have := pivot_pos (toMat n n A) hPD i hi t d ?_ ?_ ?_ i (le_refl i)
+  · simpa [d] using this
+  · intro a b hab hbi
+    simp only [t]
+    rw [if_neg (by omega)]
+    exact hzero a b (by omega) (by omega) hab
+  · intro a hai
+    simp only [t]
+    by_cases h : a = i
+    · rw [if_pos ⟨h, h⟩]; exact one_ne_zero
+    · rw [if_neg (by tauto)]; exact ne_of_gt (hposd a (by omega))
+  · intro a b hai hba
+    rw [toMat_apply]
+    show get A a b = ∑ c ∈ range (i + 1), t a c * d c * t b c
+    -- the terms beyond `b` vanish
+    have hsplit : ∑ c ∈ range (i + 1), t a c * d c * t b c = ∑ c ∈ range (b + 1), t a c * d c * t b c := by
+      symm
+      apply sum_subset (range_subset_range.mpr (by omega))
+      intro c hc hc'
+      have hc1 := mem_range.mp hc
+      have hc2 : ¬ c < b + 1 := fun hh => hc' (mem_range.mpr hh)
+      have : t b c = 0 := by
+        simp only [t]
+        rw [if_neg (by omega)]
+        exact hzero b c (by omega) (by omega) (by omega)
+      rw [this, mul_zero]
+    rw [hsplit]
+    by_cases hbi : b = i
+    · -- the pivot itself
+      have hai' : a = i := by omega
+      rw [hbi, hai', sum_range_succ]
+      have h1 : ∑ c ∈ range i, t i c * d c * t i c = cholSum L i i := by
+        rw [cholSum_eq]
+        apply sum_congr rfl
+        intro c hc
+        have := mem_range.mp hc
+        simp only [t, d]
+        rw [if_neg (by omega), if_neg (by omega)]
+        ring
+      rw [h1]
+      simp only [t, d, and_self, if_true]
+      rw [he]; ring
+    · have h1 : ∑ c ∈ range (b + 1), t a c * d c * t b c = ∑ c ∈ range (b + 1), get L a c * get L b c := by
+        apply sum_congr rfl
+        intro c hc
+        have := mem_range.mp hc
+        simp only [t, d]
+        rw [if_neg (by omega), if_neg (by omega), if_neg (by omega)]
+        ring
+      rw [h1]
+      exact (hident a b (by omega) ⟨hba, by omega⟩).symm
+
+theorem cholEntry_present {n : ℕ} {A L : Matrix ℝ} {i j : ℕ}
+    (hPD : (toMat n n A).PosDef) (hinv : CholInv n A L i j) (hi : i < n) (hj : j ≤ i) :
+    ∃ L', cholEntry A L i j = some L' ∧ CholInv n A L' i (j + 1) := by
+  have hex : ∃ L', cholEntry A L i j = some L' := by
+    unfold cholEntry
+    by_cases hij : i = j
+    · subst hij
+      simp only [if_true]
+      have hp := chol_pivot_pos hPD hinv hi
+      have hb : NumOrd.le (get A i i - cholSum L i i) (0 : ℝ) = false := by
+        cases hbb : NumOrd.le (get A i i - cholSum L i i) (0 : ℝ) with
+        | false => rfl
+        | true => exact absurd ((RealModel.le_eq _ _).mp hbb) (not_le.mpr hp)
+      rw [hb]
+      exact ⟨_, rfl⟩
+    · simp only [hij, if_false]
+      exact ⟨_, rfl⟩
+  obtain ⟨L', h⟩ := hex
+  exact ⟨L', h, cholEntry_inv hinv hi hj h⟩
+
+/-- **Cholesky is present for every positive definite input.** -/
+theorem cholesky_present_aux {A : Matrix ℝ} (hsq : A.rows = A.columns)
+    (hPD : (toMat A.rows A.rows A).PosDef) : ∃ L, cholesky A = some L := by
+  unfold cholesky
+  rw [if_neg (by simpa using hsq), ← hsq]
+  have h0 : CholInv A.rows A (fill A.rows A.rows (0 : ℝ)) 0 0 := by
+    refine ⟨shaped_fill _ _ _, fun a b ha hb _ => get_fill _ _ _ _ _ ha hb, ?_⟩
+    rintro a b _ ⟨_, h2⟩; omega
+  obtain ⟨L, h1, _⟩ := forRange_progress (fun i L => CholInv A.rows A L i 0)
+    (fun i L => cholRow A i L) A.rows _ h0
+    (fun i t hi hP => by
+      obtain ⟨L', h1, h2⟩ := forRange_progress (fun j L => CholInv A.rows A L i j)
+        (fun j L => cholEntry A L i j) (i + 1) t hP
+        (fun j t' hj hP' => cholEntry_present hPD hP' hi (by omega))
+      exact ⟨L', h1, cholRow_inv hP hi h1⟩)
+  exact ⟨L, h1⟩
+
+
+/-- With a positive definite input the pivot of column `j` is positive (so not zero). -/
+theorem ldlt_pivot_pos {n : ℕ} {A L D : Matrix ℝ} {j : ℕ}
+    (hPD : (toMat n n A).PosDef) (hinv : LdltInv n A L D j 0 j) (hj : j < n) :
+    0 < get A j j - ldltSum L D j j := by
+  have hDne : ∀ b, b < j → get D b b ≠ 0 := by
+    intro b hb
+    obtain ⟨h1, h2⟩ := hinv.okD b hb
+    rw [h2]
+    intro h0
+    have := (RealModel.eq_eq _ _).mpr h0
+    rw [h1] at this; exact Bool.false_ne_true this
+  set e := get A j j - ldltSum L D j j with he
+  let t : ℕ → ℕ → ℝ := fun a b => if a = b then 1 else get L a b
+  let d : ℕ → ℝ := fun c => if c = j then e else get D c c
+  have hzero : ∀ a b, a < n → b < n → a < b → get L a b = 0 := by
+    intro a b ha hb hab
+    apply hinv.zeroL a b ha hb
+    rintro ⟨h1, _⟩; omega
+  have := pivot_pos (toMat n n A) hPD j hj t d ?_ ?_ ?_ j (le_refl j)
+  · simpa [d] using this
+  · intro a b hab hbj
+    simp only [t]
+    rw [if_neg (by omega)]
+    exact hzero a b (by omega) (by omega) hab
+  · intro a _
+    simp only [t, if_true]
+    exact one_ne_zero
+  · intro a b haj hba
+    rw [toMat_apply]
+    show get A a b = ∑ c ∈ range (j + 1), t a c * d c * t b c
+    have hsplit : ∑ c ∈ range (j + 1), t a c * d c * t b c = ∑ c ∈ range (b + 1), t a c * d c * t b c := by
+      symm
+      apply sum_subset (range_subset_range.mpr (by omega))
+      intro c hc hc'
+      have hc1 := mem_range.mp hc
+      have hc2 : ¬ c < b + 1 := fun hh => hc' (mem_range.mpr hh)
+      have : t b c = 0 := by
+        simp only [t]
+        rw [if_neg (by omega)]
+        exact hzero b c (by omega) (by omega) (by omega)
+      rw [this, mul_zero]
+    have hpre : ∑ c ∈ range b, t a c * d c * t b c = ∑ c ∈ range b, get L a c * get L b c * get D c c := by
+      apply sum_congr rfl
+      intro c hc
+      have := mem_range.mp hc
+      simp only [t, d]
+      rw [if_neg (by omega), if_neg (by omega), if_neg (by omega)]
+      ring
+    rw [hsplit, sum_range_succ, hpre]
+    by_cases hab : a = b
+    · rw [hab]
+      simp only [t, d, if_true]
+      by_cases hbj : b = j
+      · rw [if_pos hbj, he, ldltSum_eq, hbj]; ring
+      · rw [if_neg hbj, (hinv.okD b (by omega)).2]; ring
+    · have hbj : b < j := by omega
+      have hok := hinv.okL a b (by omega) ⟨hba, Or.inl hbj⟩
+      unfold LdltLOK at hok
+      rw [if_neg hab] at hok
+      simp only [t, d]
+      rw [if_neg hab, if_neg (by omega)]
+      simp only [if_true]
+      rw [hok]
+      have := hDne b hbj
+      field_simp
+      ring
+
+theorem ldltColumn_present {n : ℕ} {A L D : Matrix ℝ} {j : ℕ}
+    (hPD : (toMat n n A).PosDef) (hinv : LdltInv n A L D j 0 j) (hj : j < n) :
+    ∃ s', ldltColumn A n j (L, D) = some s' ∧ LdltInv n A s'.1 s'.2 (j + 1) 0 (j + 1) := by
+  have hp := ldlt_pivot_pos hPD hinv hj
+  have hb : NumOrd.eq (get A j j - ldltSum L D j j) (0 : ℝ) = false := by
+    cases hbb : NumOrd.eq (get A j j - ldltSum L D j j) (0 : ℝ) with
+    | false => rfl
+    | true => exact absurd ((RealModel.eq_eq _ _).mp hbb) (ne_of_gt hp)
+  have hex : ∃ s', ldltColumn A n j (L, D) = some s' := by
+    unfold ldltColumn
+    simp only [hb]
+    exact ⟨_, rfl⟩
+  obtain ⟨⟨L', D'⟩, h⟩ := hex
+  exact ⟨(L', D'), h, ldltColumn_inv hinv hj h⟩
+
+/-- **LDLᵀ is present for every positive definite input.** -/
+theorem ldlt_present_aux {A : Matrix ℝ} (hsq : A.rows = A.columns)
+    (hPD : (toMat A.rows A.rows A).PosDef) : ∃ L D, ldlt A = some (L, D) := by
+  unfold ldlt
+  rw [if_neg (by simpa using hsq), ← hsq]
+  have h0 : LdltInv A.rows A (fill A.rows A.rows (0 : ℝ)) (fill A.rows A.rows (0 : ℝ)) 0 0 0 := by
+    refine ⟨shaped_fill _ _ _, shaped_fill _ _ _, fun a b ha hb _ => get_fill _ _ _ _ _ ha hb,
+      fun a b ha hb _ => get_fill _ _ _ _ _ ha hb, fun b hb => by omega, ?_⟩
+    rintro a b _ ⟨_, h2⟩; omega
+  obtain ⟨⟨L, D⟩, h1, _⟩ := forRange_progress
+    (fun j (s : Matrix ℝ × Matrix ℝ) => LdltInv A.rows A s.1 s.2 j 0 j)
+    (fun j s => ldltColumn A A.rows j s) A.rows
+    (fill A.rows A.rows (0 : ℝ), fill A.rows A.rows (0 : ℝ)) h0
+    (fun j t hj hP => ldltColumn_present (L := t.1) (D := t.2) hPD hP hj)
+  exact ⟨L, D, h1⟩
+
+end pivots
+
+/-! ### full column rank: no reflection of the QR run meets a zero column -/
+
+section rank
+open scoped EasyMl.RealModel
+
+/-- A real matrix whose first `c+1` columns vanish from row `c` downwards has a non-trivial
+    kernel. -/
+theorem exists_kernel_of_zero_block {M N c : ℕ} (R : _root_.Matrix (Fin M) (Fin N) ℝ) (hcN : c < N)
+    (hcM : c < M)
+    (hz : ∀ (i : Fin M) (j : Fin N), (j : ℕ) ≤ c → c ≤ (i : ℕ) → R i j = 0) :
+    ∃ y : Fin N → ℝ, y ≠ 0 ∧ R.mulVec y = 0 := by
+  -- the leading (c+1)×(c+1) block has a zero last row
+  let B : _root_.Matrix (Fin (c + 1)) (Fin (c + 1)) ℝ :=
+    fun i j => R ⟨i, by have := i.isLt; omega⟩ ⟨j, by have := j.isLt; omega⟩
+  have hdet : B.det = 0 := by
+    apply Matrix.det_eq_zero_of_row_eq_zero (⟨c, Nat.lt_succ_self c⟩ : Fin (c + 1))
+    intro j
+    exact hz _ _ (by have := j.isLt; simp; omega) (by simp)
+  obtain ⟨y, hy0, hy⟩ := Matrix.exists_mulVec_eq_zero_iff.mpr hdet
+  let yy : ℕ → ℝ := fun j => if h : j < c + 1 then y ⟨j, h⟩ else 0
+  refine ⟨fun j => yy j, ?_, ?_⟩
+  · intro h
+    apply hy0
+    funext j
+    have := congrFun h ⟨j, by have := j.isLt; omega⟩
+    simp only [yy, Pi.zero_apply] at this
+    rw [dif_pos j.isLt] at this
+    simpa using this
+  · funext i
+    simp only [Matrix.mulVec, dotProduct, Pi.zero_apply]
+    -- sum over Fin N → range N → range (c+1)
+    let f : ℕ → ℝ := fun j => (if h : j < N then R i ⟨j, h⟩ else 0) * yy j
+    have h1 : ∑ j : Fin N, R i j * yy j = ∑ j ∈ range N, f j := by
+      rw [← Fin.sum_univ_eq_sum_range f N]
+      apply Finset.sum_congr rfl
+      intro j _
+      simp only [f]
+      rw [dif_pos j.isLt]
+    have h2 : ∑ j ∈ range N, f j = ∑ j ∈ range (c + 1), f j := by
+      symm
+      apply sum_subset (range_subset_range.mpr (by omega))
+      intro j _ hj
+      have : ¬ j < c + 1 := fun hh => hj (mem_range.mpr hh)
+      simp only [f, yy]
+      rw [dif_neg this, mul_zero]
+    rw [h1, h2]
+    by_cases hic : (i : ℕ) < c + 1
+    · -- a row of the block: `(B y)_i = 0`
+      have hB := congrFun hy ⟨i, hic⟩
+      simp only [Matrix.mulVec, dotProduct, Pi.zero_apply] at hB
+      rw [← hB, ← Fin.sum_univ_eq_sum_range f (c + 1)]
+      apply Finset.sum_congr rfl
+      intro j _
+      simp only [f, yy, B]
+      rw [dif_pos (by have := j.isLt; omega), dif_pos j.isLt]
+    · apply sum_eq_zero
+      intro j hj
+      have hjc := mem_range.mp hj
+      simp only [f]
+      rw [dif_pos (by omega), hz i ⟨j, by omega⟩ (by simp; omega) (by omega), zero_mul]
+
+
+/-- the state of the QR loop after `c` iterations -/
+noncomputable def qrState (A : Matrix ℝ) (c : ℕ) : Option (Matrix ℝ) × Matrix ℝ :=
+  foldRange c (fun c s => qrStep A.rows c s) (none, ofFn A.rows A.columns (get A))
+
+theorem qrState_inv (A : Matrix ℝ) (c : ℕ) (hc : c ≤ A.rows) :
+    QrInv A.rows A.columns (toMat A.rows A.columns A) (qrState A c) ∧
+      UpperUpTo A.rows A.columns c (qrState A c).2 := by
+  unfold qrState
+  have h0 : QrInv A.rows A.columns (toMat A.rows A.columns A) (none, ofFn A.rows A.columns (get A)) := by
+    refine ⟨shaped_ofFn _ _ _, ?_, ?_, ?_⟩
+    · intro q hq; cases hq
+    · simp only [qMat, Matrix.one_mul]
+      ext i j
+      rw [toMat_apply, toMat_apply, get_ofFn _ _ _ _ _ i.isLt j.isLt]
+    · simp [qMat]
+  have h0' : UpperUpTo A.rows A.columns 0 (ofFn A.rows A.columns (get A)) :=
+    ⟨shaped_ofFn _ _ _, fun i j _ _ hj _ => by omega⟩
+  exact foldRange_inv
+    (fun k s => QrInv A.rows A.columns (toMat A.rows A.columns A) s ∧ UpperUpTo A.rows A.columns k s.2)
+    (fun c s => qrStep A.rows c s) c _ ⟨h0, h0'⟩
+    (fun k t hk hP => by
+      refine ⟨qrStep_inv hP.1 (by omega), ?_⟩
+      have hR' : (qrStep A.rows k t).2 = matMul (reflection A.rows k t.2) t.2 := by
+        obtain ⟨q, r⟩ := t
+        cases q <;> rfl
+      rw [hR']
+      exact qrStep_upper hP.2 (by omega))
+
+/-- **With linearly independent columns no reflection meets a zero column**: the column the
+    `c`-th reflection is built from has a non-zero entry. -/
+theorem qr_column_ne_zero (A : Matrix ℝ)
+    (hinj : Function.Injective (toMat A.rows A.columns A).mulVec) (c : ℕ)
+    (hcM : c < A.rows) (hcN : c < A.columns) :
+    ∃ k, ((List.range (A.rows - c)).map fun t => get (qrState A c).2 (c + t) c).getD k 0 ≠ 0 := by
+  obtain ⟨hinv, hup⟩ := qrState_inv A c (le_of_lt hcM)
+  by_contra hall
+  push Not at hall
+  set r := (qrState A c).2 with hr
+  set Qm := qMat A.rows (qrState A c).1 with hQ
+  -- column `c` vanishes from row `c` downwards
+  have hcol : ∀ i, c ≤ i → i < A.rows → get r i c = 0 := by
+    intro i hci hi
+    have := hall (i - c)
+    rw [List.getD_eq_getElem?_getD, List.getElem?_map, List.getElem?_range (by omega)] at this
+    simpa [show c + (i - c) = i by omega] using this
+  have hz : ∀ (i : Fin A.rows) (j : Fin A.columns), (j : ℕ) ≤ c → c ≤ (i : ℕ) →
+      toMat A.rows A.columns r i j = 0 := by
+    intro i j hjc hci
+    rw [toMat_apply]
+    by_cases hj : (j : ℕ) = c
+    · rw [hj]; exact hcol i hci i.isLt
+    · exact hup.2 i j i.isLt j.isLt (by omega) (by omega)
+  obtain ⟨y, hy0, hy⟩ := exists_kernel_of_zero_block (toMat A.rows A.columns r) hcN hcM hz
+  -- `A y = Q (R y) = 0`
+  have hprod : Qm * toMat A.rows A.columns r = toMat A.rows A.columns A := hinv.product
+  have hAy : (toMat A.rows A.columns A).mulVec y = 0 := by
+    rw [← hprod, ← Matrix.mulVec_mulVec, hy, Matrix.mulVec_zero]
+  exact hy0 (hinj (by rw [hAy, Matrix.mulVec_zero]))
+
+end rank
 
 end EasyMl.Decomp
